@@ -255,6 +255,8 @@ class Runner:
         d = self.workdir()
         td = os.path.join(d, "ovni")
         system = self.system(mc)
+        if any(x["m"] in ("KCO", "KCI") for x in hist):
+            system["models"] = sorted(set(system["models"]) | {"K"})
         clocks = synth.materialise(td, system, hist, models=emuhist.require_for(set(system["models"])),
                                    meta_extra=emuhist.meta_extra_for(system))
         r = emu.ovniemu(self.bdir, td, ("-l",), timeout=30)
@@ -510,6 +512,18 @@ def _main(ck, bdir, cat, rng, scratch, fast, tier):
             raise core.MachineryError("no witness for listed event %s" % (key,))
         hist = [synth_event(cat, x) for x in w["pre"]] + [synth_event(cat, w["ev"])]
         probes.append(("listed", key, key[0], hist, len(hist) - 1, True, w))
+    # every listed event once more in its witness context while the kernel model has switched the thread out
+    # (KCO before it): processed, unless the model refuses events of a thread that is out of the CPU
+    # (ModelInfo[mc].noooc of EventData.tla = "refuses_out_of_cpu" of the committed table)
+    noooc = {m["char"]: bool(m.get("refuses_out_of_cpu", False))
+             for m in json.load(open(os.path.join(core.SPEC, "data", "events.json")))["models"].values()}
+    if "K" in cat:
+        for key in sorted(listed):
+            if key[0] == "K":
+                continue
+            w = wit[key]
+            hist = [synth_event(cat, x) for x in w["pre"]] + [{"th": 1, "m": "KCO", "payload": ""}, synth_event(cat, w["ev"])]
+            probes.append(("listed+switched-out", key, key[0], hist, len(hist) - 1, not noooc[key[0]], w))
     unl = [k for k in space if k not in listed]
     if tier == "quick":
         near = set()
@@ -565,6 +579,12 @@ def _main(ck, bdir, cat, rng, scratch, fast, tier):
         if o["verdict"] not in ("ok", "fail"):
             ck.violation("ovniemu %s on the one-probe trace %s (probe %s of model %s)" % (o["verdict"], names, code, cat[mc]["name"]),
                          bundle, sig="crash:" + code)
+        elif kind == "listed+switched-out":
+            ck.violation("listed event %s (model %s) in its witness context with the thread switched out by the kernel "
+                         "(KCO before it) %s: expected %s, ovniemu verdict %s, refused event #%s %s"
+                         % (code, cat[mc]["name"], names, "processed" if expect else "the event refused (the model refuses "
+                            "events of a thread that is out of the CPU)", o["verdict"], o["refused_at"], o["errors"]),
+                         bundle, sig="listed-switched-out:" + code[:2])
         elif expect and kind == "listed":
             ck.violation("listed event %s (model %s) is not processed in its witness context %s: ovniemu refused event #%s %s"
                          % (code, cat[mc]["name"], names, o["refused_at"], o["errors"]), bundle, sig="listed-refused:" + code)
